@@ -465,11 +465,11 @@ def node_cones(spec, variant, entry, served=None, pkg="PKG"):
     kw = dict(e.get("kwargs", []))
     for i, (p, d) in enumerate(params):
         if i < len(args):
-            b.append(("L", args[i]))
+            b.append(("L", c.r.epv(args[i])))
         elif p in kw:
-            b.append(("L", kw[p]))
+            b.append(("L", c.r.epv(kw[p])))
         elif d is not None:
-            b.append(("L", d))
+            b.append(("L", c.r.epv(d)))
     b = tuple(b)
     if e["kind"] == "keep":
         out.setdefault(e["fn"], set()).add(c.cf(e["fn"], b))
